@@ -196,7 +196,15 @@ def run(case):
         approx = "Lanczos" in paths
         k = Q.shape[-1]
         tol_o = 1e-9 * n if not approx else 1e-4
-        d = (Q.mT @ Q - torch.eye(k, dtype=DT)).abs().amax().item()
+        G = Q.mT @ Q
+        target = torch.eye(k, dtype=DT)
+        if approx:
+            # a Krylov space that is exhausted before the budget (repeated eigenvalues, one member of a batch before the others) leaves
+            # exactly-zero columns in the rectangular batch of bases: the remaining columns must be orthonormal
+            live = G.diagonal(dim1=-2, dim2=-1) > 0.5
+            dead_ok = ((Q.abs().amax(-2) == 0) | live).all()
+            target = torch.diag_embed(live.to(DT)) if dead_ok else target
+        d = (G - target).abs().amax().item()
         if d > tol_o:
             return ("orthogonality", f"|Q^T Q - I| = {d:.3g}"), d / tol_o, {"approx": approx}
         rec = Q @ torch.diag_embed(w) @ Q.mT
